@@ -650,7 +650,7 @@ def glue(ctx, rng, classes, d1, d2, check_table, lines, expect, cases, fail_capp
                 target = [Unit((roots[1], k), [(c + rng.uniform(-0.05, 0.05)) % 1.0 for c in c2]) for k in range(nt)]
                 act = rng.randrange(nl)
                 vel = [0.0, 0.0, 0.0]
-                vel[rng.randrange(3)] = 1.0
+                vel[rng.randrange(3)] = rng.choice([1.0, 1.0, 2.5, 0.37])      # every derivative of the table carries the speed
                 local[act].velocity = vel
                 sep = setting.periodic_boundaries.separation_vector
                 tder = [0.0] * nt
@@ -673,6 +673,22 @@ def glue(ctx, rng, classes, d1, d2, check_table, lines, expect, cases, fail_capp
                 if abs(sum(Fr(r) for r, _, _ in tab)) > 16 * (nl * nt + 2) * E53 * mag * (nl + nt):
                     fail_capped("glue:_fill_lifting:table-does-not-sum-to-zero",
                              {"rates": [r.hex() for r, _, _ in tab]}, "derivative table built by the glue does not cancel")
+                # every entry of the table is the derivative of the factor energy for that unit when the active velocity is applied
+                # to it (independent recomputation from the pair potential)
+                want = {}
+                for lu in local:
+                    for tu in target:
+                        pd = pot.derivative(vel, sep(lu.position, tu.position), 1.0, 1.0)
+                        want[lu.identifier] = want.get(lu.identifier, 0.0) + pd
+                        want[tu.identifier] = want.get(tu.identifier, 0.0) - pd
+                scale = max(abs(x) for x in want.values()) or 1.0
+                for r, i, _ in tab:
+                    if abs(r - want[i]) > 1e-9 * scale:
+                        fail_capped("glue:_fill_lifting:entry-is-not-the-factor-derivative-of-its-unit",
+                                    {"n": [nl, nt], "active": act, "velocity": vel, "unit": list(i), "entry": r, "expected": want[i]},
+                                    "an entry of the derivative table handed to the lifting scheme is not the derivative of the factor "
+                                    "for that unit")
+                        break
                 idents = [i for _, i, _ in tab]
                 try:
                     res = "id:%d" % idents.index(rec.get_active_identifier())
